@@ -66,13 +66,21 @@ func (schemas Schemas) LocateObjectByRef(ref RefType) (Object, bool) {
 
 func (schemas Schemas) Consolidate() (Schemas, error) {
 	byPackage := make(map[string]Schemas, len(schemas))
+	// packages in order of first appearance, so that the result does not
+	// depend on map iteration order.
+	packages := make([]string, 0, len(schemas))
 
 	for _, schema := range schemas {
+		if _, seen := byPackage[schema.Package]; !seen {
+			packages = append(packages, schema.Package)
+		}
+
 		byPackage[schema.Package] = append(byPackage[schema.Package], schema)
 	}
 
 	newSchemas := make([]*Schema, 0, len(schemas))
-	for pkg, groupedSchemas := range byPackage {
+	for _, pkg := range packages {
+		groupedSchemas := byPackage[pkg]
 		newSchema := NewSchema(pkg, groupedSchemas[0].Metadata)
 		for _, schema := range groupedSchemas {
 			if err := newSchema.Merge(schema); err != nil {
